@@ -6,7 +6,7 @@ from .. import hir as H
 from ..containers import state
 from ..facts import facts
 from ..intconv import INT_TYPES, int_range
-from ..ranges import Env, Ranger, Walker, grown_names, mutated_names, ty_range
+from ..ranges import Env, Ranger, Walker, grown_names, guard_fn_summary, mutated_names, ty_range
 from ..world import gpath, split_gpath
 
 EXPLANATION = (
@@ -181,6 +181,9 @@ class ParamRanges:
             self.active.discard(key)
 
 
+_GUARD_FNS = {}
+
+
 class SiteChecker:
     """Discharge the sites of one function."""
 
@@ -198,6 +201,15 @@ class SiteChecker:
 
         self.ranger = Ranger(mutated_names(self.hir), consts, param_range)
         self.ranger.grown = grown_names(self.hir)
+        F_ = g.F[crate] if hasattr(g, "F") else g.f(crate)
+
+        def guard_fn(path, F_=F_):
+            if not path.startswith("crate::"):
+                return None
+            if path not in _GUARD_FNS.setdefault(crate, {}):
+                _GUARD_FNS[crate][path] = guard_fn_summary(F_.fn(path))
+            return _GUARD_FNS[crate][path]
+        self.ranger.guard_fn = guard_fn
         self.by_span = {}
         self.loops = []  # (loop node, env)
         w = Walker(self.ranger, self.on_node)
